@@ -271,7 +271,7 @@ class EObject(ENotifer, metaclass=Metasubinstance):
                 value = next((val for val in fvalue
                               if getattr(val, '_wrapped', None) is self),
                              None)
-                if value:
+                if value is not None:
                     fvalue.remove(value)
             else:
                 if self is fvalue or self is owner:
@@ -279,7 +279,7 @@ class EObject(ENotifer, metaclass=Metasubinstance):
                     continue
                 value = (fvalue if getattr(fvalue, '_wrapped', None) is self
                          else None)
-                if value:
+                if value is not None:
                     owner.eSet(feature, None)
 
     @property
@@ -292,7 +292,7 @@ class EObject(ENotifer, metaclass=Metasubinstance):
                 values = self.__getattribute__(feature.name)
             else:
                 values = [self.__getattribute__(feature.name)]
-            children.extend((x for x in values if x))
+            children.extend((x for x in values if x is not None))
         return children
 
     def eAllContents(self):
@@ -302,7 +302,7 @@ class EObject(ENotifer, metaclass=Metasubinstance):
             yield from x.eAllContents()
 
     def eURIFragment(self):
-        if not self.eContainer():
+        if self.eContainer() is None:
             if not self.eResource or len(self.eResource.contents) == 1:
                 return '/'
             else:
@@ -317,7 +317,7 @@ class EObject(ENotifer, metaclass=Metasubinstance):
             return f'{parent.eURIFragment()}/@{name}'
 
     def eRoot(self):
-        if not self.eContainer():
+        if self.eContainer() is None:
             return self
         if not isinstance(self.eContainer(), EObject):
             return self.eContainer()
@@ -336,7 +336,7 @@ class EModelElement(EObject):
         super().__init__(**kwargs)
 
     def eURIFragment(self):
-        if not self.eContainer():
+        if self.eContainer() is None:
             if not self.eResource or len(self.eResource.contents) == 1:
                 return '#/'
             else:
